@@ -248,10 +248,17 @@ def _child(plan, src, dest):
                     ev = we.FileCreatedEvent(p)
                 else:
                     ev = we.FileModifiedEvent(p)
-                hs = mir.event_handlers
+                # handlers by role, not by list position (watchdog keeps the handlers of a watch in a set, so the
+                # order in which they see an event is arbitrary; the plan chooses it)
+                roles = {}
+                for h in mir.event_handlers:
+                    r_ = "rb" if hasattr(h, "records") else ("move" if getattr(h, "mirror_fun", None) is shutil.move else "copy")
+                    roles[r_] = h
                 for hi in e.get("order", [0, 1, 2]):
-                    if hi < len(hs):
-                        hs[hi].dispatch(ev)
+                    r_ = ("copy", "move", "rb")[hi]
+                    if r_ in roles:
+                        report({"ev": "to_handler", "role": r_, "p": e.get("q", e["p"])})
+                        roles[r_].dispatch(ev)
                 report({"ev": "dispatched", "p": e.get("q", e["p"])})
         report({"ev": "phase", "ph": "end", "r": len(plan["rounds"])})
         report.sync("end")
@@ -305,6 +312,9 @@ def run_plan(prop, plan):
     existing_replayed = [False]
     replayed = set()
     expired_uncopied = set()
+    expired_although_presented = set()
+    given_to_copy = {}      # rel -> round in which the copy handler was last given an event for it
+    modified_round = {}     # rel -> round after which the source file last changed
 
     def viol(cls, msg, **sig):
         res.violate("C17", cls, "[%s round %d, %s] %s" % (phase[0], phase[1], method, msg), method=method, **sig)
@@ -333,7 +343,10 @@ def run_plan(prop, plan):
         for rel, p in _walk_files(src).items():
             b = os.path.basename(rel)
             if b in PROPNAMES or (MD.RE_MDFILE.match(b) and not b.startswith("tmp.") and not _is_rf(rel)):
-                versions.setdefault(rel, []).append(K.file_sha(p))
+                sha = K.file_sha(p)
+                if not versions.get(rel) or versions[rel][-1] != sha:
+                    modified_round[rel] = phase[1]
+                versions.setdefault(rel, []).append(sha)
 
     def check_boundary(op):
         """invariants that must hold at every instant of a mirror phase"""
@@ -379,6 +392,9 @@ def run_plan(prop, plan):
                         phase[0], phase[1] = ev["ph"], ev["r"]
                     elif e == "dispatched":
                         delivered.add(ev["p"])
+                    elif e == "to_handler":
+                        if ev["role"] == "copy":
+                            given_to_copy[ev["p"]] = phase[1]
                     elif e == "rf_fail":
                         rf_fail[0] = True
                     elif e == "existing_replayed":
@@ -412,8 +428,13 @@ def run_plan(prop, plan):
                         rel = os.path.relpath(ev.p1, "src")
                         sp, dp = os.path.join(src, rel), os.path.join(dest, rel)
                         if os.path.exists(sp) and not (os.path.exists(dp) and K.file_sha(dp) == K.file_sha(sp)):
-                            expired_uncopied.add(rel)
-                            res.probe("metadata_expired_before_latest_copy")
+                            if rel in given_to_copy and given_to_copy[rel] >= modified_round.get(rel, 0):
+                                # the copy handler HAS been given an event for the current content and still the
+                                # destination is not current: not the known finding
+                                expired_although_presented.add(rel)
+                            else:
+                                expired_uncopied.add(rel)
+                                res.probe("metadata_expired_before_latest_copy")
                 # cross-device behaviour
                 if plan["exdev"] and ev.kind in ("rename", "link") and ev.p1.startswith("src/") and ev.p2.startswith("dest/"):
                     res.fault("EXDEV_" + ev.kind)
